@@ -148,14 +148,66 @@ fn check_mutated(input: &super::c01::Mutated, case: &mut Case) -> Result<(), Fai
     Ok(())
 }
 
+/// messages that really hold N entries in one section (plus one different entry in the next one)
+fn enum_many(_t: Tier, shard: usize, n: usize, f: &mut dyn FnMut((u8, u16)) -> bool) {
+    let mut i = 0;
+    for section in 0..4u8 {
+        for count in [0u16, 1, 2, 60, 127, 128, 179, 180, 181, 182, 255, 256, 257, 300, 1000, 4000] {
+            i += 1;
+            if mine(i, shard, n) && !f((section, count)) {
+                return;
+            }
+        }
+    }
+}
+
+fn check_many(input: &(u8, u16), case: &mut Case) -> Result<(), Fail> {
+    let (section, count) = *input;
+    let mut p = APacket { id: 0x0505, flags: 0x8000, ..Default::default() };
+    let owner = AName::from_strs(&["n", "example"]);
+    for k in 0..count {
+        match section {
+            0 => p.questions.push(AQuestion { name: owner.clone(), qtype: 1 + (k % 2) * 15, qclass: 1, unicast: false }),
+            s => {
+                let r = ARecord { name: owner.clone(), class: 1, cache_flush: k % 7 == 0, ttl: k as u32, rdata: ARData::Typed { code: 1, fields: vec![Val::U32(k as u32)] } };
+                match s {
+                    1 => p.answers.push(r),
+                    2 => p.authorities.push(r),
+                    _ => p.additionals.push(r),
+                }
+            }
+        }
+    }
+    // a sentinel after the big section
+    let sentinel = ARecord { name: AName::from_strs(&["sentinel"]), class: 3, cache_flush: false, ttl: 7, rdata: default_typed(16) };
+    if section < 3 {
+        p.additionals.push(sentinel);
+    }
+    let m = encode_message(&p, &EncOpts::compressed());
+    let accepted = framing_oracle(&m, case)?;
+    ensure!(accepted, "c05:many-entries-rejected", "a well-formed message with {} entries in section {} was rejected", count, section);
+    case.nontrivial = count >= 2;
+    Ok(())
+}
+
+/// reference encodings with stray / twin OPT records and malformed NSEC windows (C11's inputs)
+fn check_strays(input: &super::c11::In, case: &mut Case) -> Result<(), Fail> {
+    let m = super::c11::render(input);
+    let accepted = framing_oracle(&m, case)?;
+    case.nontrivial = accepted && !input.1.is_empty();
+    Ok(())
+}
+
 pub fn def() -> CheckDef {
     CheckDef {
         id: "C05",
-        rule: "proptest: reference encodings (random foreign compression) of multi-record messages in which chosen records get an RDLENGTH larger than their typed content (random surplus bytes, or a surplus that is itself a well-formed A record) or smaller than it, followed by further records; header counts larger than the entries present; plus mutated encodings. Oracle = independent envelope walker + schema decoder confined to each RDLENGTH slice: walker failure => library Err; content not decodable inside its frame => library Err; library Ok => every question/record equals the framed entry (owner, type, class, bit 15, TTL, RDATA decoded from the frame, surplus ignored). Non-trivial = library accepted, >= 2 records and a tweaked RDLENGTH before the last record (mutated: >= 1 mutation)",
+        rule: "proptest: reference encodings (random foreign compression) of multi-record messages in which chosen records get an RDLENGTH larger than their typed content (random surplus bytes, or a surplus that is itself a well-formed A record) or smaller than it, followed by further records; header counts larger than the entries present; sections that really hold 0..4000 entries; stray and twin OPT records in any section; plus mutated encodings. Oracle = independent envelope walker + schema decoder confined to each RDLENGTH slice: walker failure => library Err; content not decodable inside its frame => library Err; library Ok => every question/record equals the framed entry (owner, type, class, bit 15, TTL, RDATA decoded from the frame, surplus ignored). Non-trivial = library accepted, >= 2 records and a tweaked RDLENGTH before the last record (mutated: >= 1 mutation)",
         assumptions: vec!["the library may reject for reasons of its own (class, QTYPE, Z bit, surplus): no claim", "unnamed opcode / rcode values are compared as Reserved"],
         sections: vec![
             Box::new(ReplayOnly { name: "fuzz-bytes", check: check_raw }),
             Box::new(PropSection { name: "rdlength", rule: "RDLENGTH vs content mismatches", strategy, cases: (300_000, 3_000_000), check }),
+            Box::new(EnumSection { name: "many-entries", rule: "sections holding 0..4000 entries", enumerate: enum_many, check: check_many, exhaustive: true }),
+            Box::new(PropSection { name: "strays", rule: "stray / twin OPT records, any opcode and rcode", strategy: super::c11::strategy_pub, cases: (100_000, 1_000_000), check: check_strays }),
             Box::new(PropSection { name: "mutated", rule: "mutated reference encodings", strategy: super::c01::mutated_strategy, cases: (300_000, 3_000_000), check: check_mutated }),
         ],
     }
